@@ -41,11 +41,14 @@
 //   - generation 2 runs from the images of the tasks that carry a g2 configuration: the
 //     big-record base histories (g2Bases) and, in the thorough tier, the long histories;
 //   - per task (one base history x one operation in flight), generation 2 runs once per
-//     DISTINCT recovered state (hash of the write-ahead
-//     log directory after recovery + start snapshot): generation 2 is a deterministic function
-//     of that state, so images that recover to the same bytes need no second run. At most
-//     MaxStates distinct states per task (cap reported in the evidence);
-//   - second histories: the fixed lists of g2HistsFor, all of them for every state.
+//     DISTINCT recovered state (hash of the WAL directory after recovery + start snapshot):
+//     generation 2 is a deterministic function of that state, so images that recover to the
+//     same bytes need no second run. At most MaxStates distinct states per task, in image
+//     enumeration order (cap reported in the evidence);
+//   - second histories: the fixed lists of g2HistsFor, all of them for every state (long
+//     histories: the first two);
+//   - the base histories' own crash points: all subsets of the last g2BaseMaxBits
+//     undetermined sectors x {all, none} of the earlier ones + the interval families.
 package main
 
 import (
@@ -112,6 +115,8 @@ type g2state struct {
 	seen    map[string]bool // recovered states that already got a generation 2
 	stats   *g2stats
 	verbose bool // replay: print the generation-2 crash points
+	// progress resets the hang watchdog of the worker pool (a generation 2 takes a while)
+	progress func()
 }
 
 // ---------------------------------------------------------------- configuration
@@ -149,7 +154,7 @@ func g2Bases(tier string) [][]string {
 		bigs = append(bigs, fmt.Sprintf("a5kf%d", r))
 	}
 	if tier == "thorough" {
-		pres = []string{"a1", "a789", "a513", "a1100"}
+		pres = []string{"a1", "a789", "a1100"}
 		bigs = append(bigs, "a5kz", "a9kz")
 		for r := 0; r < 8; r++ {
 			bigs = append(bigs, fmt.Sprintf("a9kf%d", r))
@@ -171,10 +176,23 @@ func g2Bases(tier string) [][]string {
 
 func g2For(tier string) *g2task {
 	if tier == "thorough" {
-		return &g2task{Hists: g2HistsFor(tier), Bits: 8, MaxStates: 64}
+		return &g2task{Hists: g2HistsFor(tier), Bits: 6, MaxStates: 64}
 	}
 	return &g2task{Hists: g2HistsFor(tier), Bits: 6, MaxStates: 24}
 }
+
+// g2ForLong: the long histories (thorough tier) get the first two second histories; with
+// their 2 and 8 KiB segments S1 alone cuts up to five segments inside generation 2.
+func g2ForLong(tier string) *g2task {
+	g := *g2For(tier)
+	g.Hists = g.Hists[:2]
+	return &g
+}
+
+// g2BaseMaxBits bounds the exhaustive sector subsets of the base histories' own (generation-1)
+// crash points in both tiers: a torn 9 KiB write has 19 undetermined sectors, i.e. all subsets
+// of the last 10 x {all, none} of the first 9 + the interval families.
+const g2BaseMaxBits = 10
 
 // bigShapes: names and payload sizes of the shapes with a record larger than one page.
 func bigShapes() map[string]int {
@@ -424,6 +442,9 @@ func (c *evalCtx) gen2Run(w *wal.WAL, rec *recorder, r readRes, ws walpb.Snapsho
 		}
 		c2 := ctxFor(r2, k, c.classes, c.scratch)
 		c2.disk = c.disk
+		if g.progress != nil {
+			g.progress()
+		}
 		if g.verbose {
 			fmt.Printf("  g2 obs %2d op %2d %-50s imgs=%d lo=%d hi=%d\n", k, o.op, o.label, len(imgs), c2.lo, c2.hi)
 		}
